@@ -519,6 +519,9 @@ theorem fnext_quoted_eof (delim : Byte) (hd1 : delim ≠ 34) (fuel : Nat) (fs : 
 def FieldOk (delim : Byte) (p : Bool × List Byte) : Prop :=
   (mustQuote delim p.2 = true → p.1 = true) ∧ CR ∉ p.2
 
+instance (delim : Byte) (p : Bool × List Byte) : Decidable (FieldOk delim p) := by
+  unfold FieldOk; infer_instance
+
 /-- loaded reader state between two rows, `D` = the unread bytes: either no error so far, or the
 input is exhausted and `eof` has already been recorded (by the quoted scanner's look-ahead) -/
 def AtRow (fs : FS) (D : List Byte) : Prop :=
@@ -1077,6 +1080,20 @@ example : ∃ fuel n, readAll 44 fuel n (initFS (renderDoc 44 demo) (List.replic
 
 #eval (readAll 44 30 30 (initFS (renderDoc 44 QF.Props.C13.demo) [1, 2, 3, 1, 1, 5]) []).map
   (fun r => (decide (r.1 = QF.Props.C13.demo.map (·.map (·.2))), r.2))
+
+/-- Needed: a CR inside a quoted field does not come back from the reader mirror (the loop skips CR
+without compacting; known finding of C12), while `rfcParse` keeps it. -/
+example : (readAll 44 20 5 (initFS (renderDoc 44 [[(true, [97, 13, 98]), (false, [99])]]) []) []).map (·.1)
+    ≠ some (rfcParse 44 (renderDoc 44 [[(true, [97, 13, 98]), (false, [99])]])) := by decide
+
+/-- Not needed (`read_render_core`): `RowOk.single` and `RowOk.noLeadQuote`. A bare empty line is read
+as the row of one empty field, by the reader as by the specification. -/
+example : ∃ fuel n, readAll 44 fuel n (initFS (renderDoc 44 [[(false, [])], [(true, [34, 10])]]) [2, 1]) []
+    = some ([[[]], [[34, 10]]], some .eof) :=
+  ⟨_, _, read_render_core 44 (by decide) _ (by
+    intro r hr
+    simp only [List.mem_cons, List.not_mem_nil, or_false] at hr
+    rcases hr with rfl | rfl <;> exact ⟨by decide, by decide⟩) [2, 1] 20 20 (by decide) (by decide) (by decide)⟩
 
 #print axioms unq_field
 #print axioms quoted_field
